@@ -43,4 +43,59 @@ theorem decompileAll_encodeAll (tt : UInt8) (htt : tt ≠ 0) :
       simp [encodeAll, decompileAll, renderAll, decompile_encode tt htt f, decompileAll_encodeAll tt htt fs]
 end
 
+/-! ### assertion values survive: `escape` has a left inverse -/
+
+def unhexDigit (c : UInt8) : Nat := if c.toNat ≤ 57 then c.toNat - 48 else c.toNat - 87
+
+/-- the inverse of `escape` (RFC 4515 `\\xx`), a proof device: go-ldap's own unescaping is not modelled -/
+def unescape : Bytes → Bytes
+  | c :: h :: l :: rest =>
+    if c = 92 then (unhexDigit h * 16 + unhexDigit l).toUInt8 :: unescape rest else c :: unescape (h :: l :: rest)
+  | c :: rest => c :: unescape rest
+  | [] => []
+termination_by l => l.length
+
+theorem unescape_esc (h l : UInt8) (rest : Bytes) :
+    unescape (92 :: h :: l :: rest) = (unhexDigit h * 16 + unhexDigit l).toUInt8 :: unescape rest := by
+  rw [unescape]; simp
+
+theorem unescape_plain (c : UInt8) (hc : c ≠ 92) (rest : Bytes) : unescape (c :: rest) = c :: unescape rest := by
+  match rest with
+  | [] => rw [unescape]; simp [unescape]
+  | [a] => rw [unescape]; simp [unescape]
+  | a :: b :: r => rw [unescape]; simp [hc]
+
+theorem unhex_hex (n : Nat) (h : n < 16) : unhexDigit (hexDigit n) = n := by
+  have : ∀ n, n < 16 → unhexDigit (hexDigit n) = n := by decide
+  exact this n h
+
+theorem byte_split (c : UInt8) : (c.toNat / 16 * 16 + c.toNat % 16).toUInt8 = c := by
+  have h : c.toNat / 16 * 16 + c.toNat % 16 = c.toNat := by omega
+  rw [h]; simp
+
+theorem unescape_escape (v : Bytes) : unescape (escape v) = v := by
+  induction v with
+  | nil => simp [escape]; rw [unescape]
+  | cons c cs ih =>
+    unfold escape
+    by_cases hm : mustEscape c = true
+    · have h1 : c.toNat / 16 < 16 := by have := c.toNat_lt; omega
+      have h2 : c.toNat % 16 < 16 := by omega
+      simp only [hm, if_true, unescape_esc, unhex_hex _ h1, unhex_hex _ h2, byte_split, ih]
+    · have hc : c ≠ 92 := by
+        intro h; subst h; simp [mustEscape] at hm
+      simp [hm, unescape_plain c hc, ih]
+
+theorem escape_injective (a b : Bytes) (h : escape a = escape b) : a = b := by
+  have := congrArg unescape h
+  simpa [unescape_escape] using this
+
+
+/-- two assertions on the same attribute with the same operator render alike only if their values are equal -/
+theorem ava_render_injective (a op v v' : Bytes) (h : paren (a ++ op ++ escape v) = paren (a ++ op ++ escape v')) : v = v' := by
+  simp only [paren, List.cons.injEq, true_and] at h
+  have h2 := List.append_cancel_right h
+  have h3 := List.append_cancel_left h2
+  exact escape_injective v v' h3
+
 end Gldap.Filter
